@@ -389,7 +389,33 @@ func parentMain() {
 			results[i] = r
 		}(i, n)
 	}
+	// free-running race-detector pass (separate -race binary built by build_extra.sh), concurrently with the children
+	raceOut, raceRC, raceRan := "", 0, false
+	raceBin := filepath.Join(filepath.Dir(os.Args[0]), "c18race.bin")
+	var rwg sync.WaitGroup
+	if _, err := os.Stat(raceBin); err == nil && os.Getenv("VERIF_C18_NORACE") == "" {
+		raceRan = true
+		rwg.Add(1)
+		go func() {
+			defer rwg.Done()
+			args := []string{"-racepass", "-tier", tier}
+			if only != "" {
+				args = append(args, "-section", only)
+			}
+			cmd := exec.Command(raceBin, args...)
+			cmd.Env = append(os.Environ(), "GORACE=halt_on_error=0 exitcode=66", "GOMAXPROCS=8")
+			out, err := cmd.CombinedOutput()
+			raceOut = string(out)
+			if err != nil {
+				raceRC = 2
+				if ee, ok := err.(*exec.ExitError); ok {
+					raceRC = ee.ExitCode()
+				}
+			}
+		}()
+	}
 	wg.Wait()
+	rwg.Wait()
 	// merge
 	var states, transitions, traces, evals int64
 	var samples []any
@@ -444,13 +470,40 @@ func parentMain() {
 			samples = append(samples, map[string]any{"scenario": r.name, "schedule": ss[len(ss)-1]})
 		}
 	}
+	raceInfo := map[string]any{"ran": raceRan}
+	if raceRan {
+		races := strings.Count(raceOut, "WARNING: DATA RACE")
+		panics := strings.Count(raceOut, "RACEPASS-PANIC")
+		raceInfo["data_races_reported"] = races
+		raceInfo["panics"] = panics
+		for _, l := range strings.Split(raceOut, "\n") {
+			if strings.HasPrefix(l, "RACEPASS-DONE") {
+				raceInfo["summary"] = l
+			}
+		}
+		if races > 0 || panics > 0 {
+			root := os.Getenv("VERIF_ROOT")
+			if root == "" {
+				root = "/verif"
+			}
+			os.MkdirAll(filepath.Join(root, "replays"), 0o755)
+			rp := filepath.Join(root, "replays", "C18-race-report.txt")
+			os.WriteFile(rp, []byte(raceOut), 0o644)
+			fmt.Printf("[C18] race-detector pass: %d data race report(s), %d panic(s); first report:\n%s\n", races, panics, firstRace(raceOut))
+			fmt.Printf("VIOLATION property=C18 replay=%s\n", rp)
+			violations++
+		} else if raceRC != 0 {
+			broken++
+			fmt.Printf("[C18] race pass failed rc=%d\n%s\n", raceRC, lastLines(raceOut, 15))
+		}
+	}
 	sort.Strings(known)
 	fmt.Printf("[C18] scenarios=%d schedules=%d scheduling-points=%d violations(scenarios)=%d broken=%d wall=%.1fs\n", len(results), states, transitions, violations, broken, time.Since(start).Seconds())
 	if evPath != "" {
 		ev := map[string]any{"property_id": "C18", "tier": tier, "seed": 0, "level": "model_checking", "wall_s": time.Since(start).Seconds(), "violations": violations,
 			"assumptions": []string{"sequential consistency (memory-model effects weaker than SC are not modelled by a cooperative scheduler)", "calls into the Go standard library and x/crypto are atomic steps (stdlib trusted)", "heavy numeric packages (ML-DSA, SLH-DSA, X-Wing) are preempted only at every stride-th statement so that one execution has ~300 such points", "concurrency is checked for 2 and 3 threads"},
 			"coverage": map[string]any{"states": states, "transitions": transitions, "traces_validated_against_impl": traces, "samples": samples, "exhaustive": exhaustive && broken == 0,
-				"evaluations": evals, "distinct_nontrivial": states, "rule": rule, "scenarios": perScenario, "known_findings_met": known}}
+				"evaluations": evals, "distinct_nontrivial": states, "rule": rule, "scenarios": perScenario, "known_findings_met": known, "race_detector_pass": raceInfo}}
 		b, _ := json.MarshalIndent(ev, "", " ")
 		os.WriteFile(evPath, b, 0o644)
 	}
@@ -463,6 +516,21 @@ func parentMain() {
 	fmt.Printf("[C18] OK tier=%s\n", tier)
 }
 
+func firstRace(out string) string {
+	i := strings.Index(out, "WARNING: DATA RACE")
+	if i < 0 {
+		i = strings.Index(out, "RACEPASS-PANIC")
+	}
+	if i < 0 {
+		return ""
+	}
+	l := strings.Split(out[i:], "\n")
+	if len(l) > 28 {
+		l = l[:28]
+	}
+	return strings.Join(l, "\n")
+}
+
 func asMap(v any) map[string]any { m, _ := v.(map[string]any); return m }
 
 func lastLines(s string, n int) string {
@@ -473,8 +541,71 @@ func lastLines(s string, n int) string {
 	return strings.Join(l, "\n")
 }
 
+// racePass: the SAME scenario bodies, uninstrumented, as free-running goroutines under the Go race
+// detector (binary built with -race). Cooperative hand-offs are happens-before edges that blind the
+// detector, hence this separate pass. It is observation (many iterations), not enumeration.
+func racePass() {
+	secs := 20.0
+	if tierFromArgs() == "thorough" {
+		secs = 120
+	}
+	only := argVal("-section")
+	deadline := time.Now().Add(time.Duration(secs * float64(time.Second)))
+	iters := 0
+	var list []*scenario
+	for _, s := range scenarios {
+		if only == "" || strings.HasPrefix(s.name, only) {
+			list = append(list, s)
+		}
+	}
+	builts := make([]*built, len(list))
+	for round := 0; time.Now().Before(deadline) || round < 2; round++ {
+		for si, s := range list {
+			if builts[si] == nil {
+				builts[si] = s.setup()
+			}
+			b := builts[si]
+			reps := 20
+			if round == 0 {
+				reps = 3
+			}
+			for k := 0; k < reps; k++ {
+				sh := b.newShared()
+				var wg sync.WaitGroup
+				start := make(chan struct{})
+				for i := range b.threads {
+					wg.Add(1)
+					go func(i int) {
+						defer wg.Done()
+						defer func() {
+							if r := recover(); r != nil {
+								fmt.Printf("RACEPASS-PANIC scenario=%s thread=%d: %v\n", s.name, i, r)
+							}
+						}()
+						<-start
+						for _, c := range b.threads[i] {
+							c.do(sh)
+						}
+					}(i)
+				}
+				close(start)
+				wg.Wait()
+				iters++
+			}
+			if time.Now().After(deadline) && round >= 2 {
+				break
+			}
+		}
+	}
+	fmt.Printf("RACEPASS-DONE scenarios=%d iterations=%d\n", len(list), iters)
+}
+
 func main() {
 	registerScenarios()
+	if hasArg("-racepass") {
+		racePass()
+		return
+	}
 	if hasArg("-child") {
 		// strip the flag h.Main does not know
 		var a []string
